@@ -27,10 +27,10 @@ ALLINV = ("TreeWF PostStopOnce AtMostOneRunning TerminatedAtMostOnce TerminatedD
 BASEINV = "TreeWF TerminatedAtMostOnce"
 
 
-def S(names, parent, init, prog, watch=(), after=None, maxinc=1, maxperm=1, asis=(), thorough=False):
+def S(names, parent, init, prog, watch=(), after=None, maxinc=1, maxperm=1, asis=(), thorough=False, grains=0):
     return dict(names=list(names), parent=dict(parent), init=list(init), watch=[list(w) for w in watch],
                 prog={t: [dict(op=o[0], n=o[1], w=(o[2] if len(o) > 2 else "")) for o in ops] for t, ops in prog.items()},
-                after=dict(after or {}), maxinc=maxinc, maxperm=maxperm, asis=set(asis), thorough=thorough)
+                after=dict(after or {}), maxinc=maxinc, maxperm=maxperm, asis=set(asis), thorough=thorough, grains=grains)
 
 
 # asis = invariants the model of the code AS IT IS is expected to violate in that scenario (stale-finding guard)
@@ -60,7 +60,7 @@ SCENARIOS = {
     "restart": S("ab", {"a": "u", "b": "a"}, "ab", {"t1": [("stop", "a")], "t2": [("restart", "b")]}, thorough=True,
                  asis={"ChildrenFirst", "CounterSettles", "LiveAreRegistered", "StopIsComplete", "PostStopOnce"}),
     # C17
-    "sysstop": S("abc", {"a": "u", "b": "a", "c": "u"}, "abc", {"t1": [("sysstop", "")], "t2": [("tell", "b"), ("tell", "c")]}),
+    "sysstop": S("abc", {"a": "u", "b": "a", "c": "u"}, "abc", {"t1": [("sysstop", "")], "t2": [("tell", "b"), ("tellg", "g1"), ("tell", "c")]}, grains=2),
 }
 BY_PROP = {
     "C11": ["spawn3", "respawn", "childco"],
@@ -123,7 +123,7 @@ def gen_files():
 
 
 def scenario_json():
-    return {k: {f: v[f] for f in ("names", "parent", "init", "watch", "prog", "after")} for k, v in SCENARIOS.items()}
+    return {k: {f: v[f] for f in ("names", "parent", "init", "watch", "prog", "after", "grains")} for k, v in SCENARIOS.items()}
 
 
 # ---------------------------------------------------------------- known findings: message -> findings that explain it
@@ -141,11 +141,11 @@ EXPLAINS = {
     "a running actor is missing from the tree at quiescence": ["StaleTerminatedDeletesLiveNode", "OrphanChildOutsideTree",
                                                                "ChildAttachedToStoppingParent", "SpawnOverRegisteredName"],
     "a running actor's parent is gone at quiescence": ["ChildAttachedToStoppingParent", "OrphanChildOutsideTree"],
-    "a stopped actor is still registered at quiescence": [],
+    "a stopped actor is still registered at quiescence": ["StopInAttachWatchGap"],
     "parent / children / watcher relations of the tree are inconsistent at quiescence": [],
 }
 FINDING_PROP = {"SpawnOverRegisteredName": {"C11", "C09"}, "ActorOfResolvesStopped": {"C09"}, "OverlappingStopSkipsChild": {"C09"},
-                "ChildAttachedToStoppingParent": {"C09"}, "StaleTerminatedDeletesLiveNode": {"C09"}, "OrphanChildOutsideTree": {"C09"}}
+                "ChildAttachedToStoppingParent": {"C09"}, "StaleTerminatedDeletesLiveNode": {"C09"}, "OrphanChildOutsideTree": {"C09"}, "StopInAttachWatchGap": {"C09"}}
 STOPOPS = ("stop", "pill", "restart", "sysstop")
 
 
@@ -170,7 +170,7 @@ def witnesses(h):
             n = par[n]
             out.append(n)
         return out
-    alive, lastd, opn, wit = {}, [], {}, set()
+    alive, lastd, opn, wit, started, everreg = {}, [], {}, set(), False, set()
     def reg(n):
         for nd in lastd:
             if nd["n"] == n:
@@ -178,6 +178,8 @@ def witnesses(h):
         return None
     for idx, e in h["rows"]:
         ev = e["ev"]
+        if ev == "Start":
+            started = True
         if ev in ("mut", "Start"):
             newd = e["d"]
             if ev == "mut" and e["c"] == 6:          # deleteNode: a node whose actor is alive disappeared
@@ -193,12 +195,13 @@ def witnesses(h):
                         if not pal or stopping:
                             wit.add("ChildAttachedToStoppingParent")
             lastd = newd
+            everreg.update((nd["n"], nd["i"]) for nd in newd)
         elif ev == "prestart":
             nd = reg(e["n"])
             if nd is not None and nd["i"] != e["i"]:
                 wit.add("SpawnOverRegisteredName")  # a new actor was started while its name was still registered
             p = par.get(e["n"], "u")
-            if e["k"] == 1 and p != "u" and reg(p) is None:
+            if started and e["k"] == 1 and p != "u" and reg(p) is None:
                 wit.add("OrphanChildOutsideTree")   # a child was started while its parent was not (yet) in the tree
             alive[(e["n"], e["i"])] = True
         elif ev == "psenter":
@@ -209,10 +212,19 @@ def witnesses(h):
                         wit.add("OverlappingStopSkipsChild")
         elif ev == "psexit":
             alive[(e["n"], e["i"])] = False
+            nd = reg(e["n"])
+            if nd is not None and nd["i"] == e["i"] and "dw" not in nd["wers"]:
+                wit.add("StopInAttachWatchGap")     # stopped before the death watch was registered as its watcher
         elif ev == "call":
             opn[e["t"]] = e
         elif ev == "ret":
             opn.pop(e["t"], None)
+            if e["op"] in ("spawn", "spawnfn", "spawnchild") and e["ok"] == 1 and e["i"] and (e["n"], e["i"]) not in everreg:
+                p = par.get(e["n"], "u")
+                if p != "u" and reg(p) is None:
+                    wit.add("OrphanChildOutsideTree")  # returned as spawned, never inserted, and its parent is not in the tree
+            if e["op"] == "actorof" and e["ok"] == 1 and e["run"] == 0:
+                wit.add("ActorOfResolvesStopped")  # the resolved PID is not running
     return wit
 
 
@@ -245,10 +257,16 @@ def run(ctx, pid):
         json.dump(scenario_json(), f)
     pool = concurrent.futures.ThreadPoolExecutor(max_workers=3)
 
-    # ---- design level
-    fixed = {s: pool.submit(ctx.tlc_must_hold, SPEC, "MC_%s.cfg" % s, module="MC_Tree", timeout=2400, workers=3) for s in scns}
-    asis = {s: pool.submit(ctx.tlc_must_hold, SPEC, "MC_%s_asis.cfg" % s, module="MC_Tree", timeout=2400, workers=3, dump_dot=True) for s in scns}
-    versus = {} if quick else {s: pool.submit(ctx.tlc, SPEC, "MC_%s_c.cfg" % s, module="MC_Tree", timeout=2400, workers=3, expect_fail=True) for s in scns}
+    # ---- design level.  quick: one exhaustive run per scenario of the model of the code as it is (all property invariants
+    # where no finding is recorded for the scenario, the always-true ones otherwise) which also dumps the state graph;
+    # thorough: additionally the repaired design (Defects = {}) against every invariant, and the as-is model against the
+    # property invariants where findings are recorded (must fail with one of the recorded invariants).
+    def asis_cfg(s):
+        return "MC_%s_asis.cfg" % s if SCENARIOS[s]["asis"] else "MC_%s_c.cfg" % s
+    asis = {s: pool.submit(ctx.tlc_must_hold, SPEC, asis_cfg(s), module="MC_Tree", timeout=2400, workers=3, dump_dot=True) for s in scns}
+    fixed = {} if quick else {s: pool.submit(ctx.tlc_must_hold, SPEC, "MC_%s.cfg" % s, module="MC_Tree", timeout=2400, workers=3) for s in scns}
+    versus = {} if quick else {s: pool.submit(ctx.tlc, SPEC, "MC_%s_c.cfg" % s, module="MC_Tree", timeout=2400, workers=3, expect_fail=True)
+                               for s in scns if SCENARIOS[s]["asis"]}
 
     tot = collections.Counter()
     samples, others, known_hits = [], collections.Counter(), collections.Counter()
@@ -261,7 +279,7 @@ def run(ctx, pid):
         walks, left = g.edge_cover(rng)
         if left:
             raise vlib.Infra("edge cover incomplete (%s)" % s)
-        nsel = {True: 100, False: 2500}[quick]
+        nsel = {True: 60, False: 2500}[quick]
         sel = vlib.sample(rng, walks, nsel)
         beh = []
         for w in sel:
@@ -278,7 +296,7 @@ def run(ctx, pid):
 
     def stress(s):
         trace = ctx.tmp("stress-%s.ndjson" % s)
-        n = 40 if quick else 600
+        n = 30 if quick else 600
         p = ctx.run([exe, "stress", sfile, s, str(n), str(ctx.seed * 1000 + len(s)), trace], timeout=2400)
         rs = json.loads(p.stdout.strip().splitlines()[-1])
         return "stress-" + s, trace, rs
@@ -306,7 +324,8 @@ def run(ctx, pid):
 
     # design-level results
     for s in scns:
-        fixed[s].result()
+        if s in fixed:
+            fixed[s].result()
         asis[s].result()
         if s in versus:
             v = versus[s].result()
